@@ -646,6 +646,13 @@ func main() {
 		// replay of a single case: the writer may have sampled nothing; keep "samples" a list
 		w.Meta["samples"] = []interface{}{}
 	}
+	// ------------------------------------------------------------------ extra_config: which formatter
+	nExtra := 150
+	if cfg.Thorough() {
+		nExtra = 3000
+	}
+	extraStream(w, r, nExtra)
+
 	// ------------------------------------------------------------------ several backends, end to end
 	nE2E := 250
 	if cfg.Thorough() {
@@ -663,7 +670,7 @@ func main() {
 	w.Meta["format_runs"] = formatRuns
 	w.Meta["repeats_per_configuration"] = repeats
 	w.Meta["inputs_with_run_dependent_output"] = orderDependent
-	w.Close(fmt.Sprintf("corpus %d documents x %d configurations; small scope: every document over the keys x every allow and deny list of <=2 paths (see small_scope) and 8 shaping configurations; random documents (depth<=6, width<=5, keys empty/dotted/non-ASCII, arrays, null) x random target/allow|deny/mapping/group with paths walking the document; decoder+formatter through the http proxy and the gin pipeline (arrays/objects/null/scalars x is_collection); the consumer scribbles into every returned Data map after copying it; concurrent first use of fresh formatters with 50-200 listed paths (child process); endpoints with 2-3 backends in a child process, arrival order at the merge imposed, target misses arriving first (own options each; disjoint and overlapping top-level keys; failing decoders) through the default factory's parallel merge and the gin JSON render, client body compared with the composed model (overlap winner open) and with the boolean no-leak form; instance reuse: one formatter / http proxy per configuration driven through sequences of 3-9 related documents (corpus + random) and hit by 8 goroutines x 150 calls (each distinct (document, observation) pair is a case); every other Format configuration run %d times on fresh copies (map order), a case carries the first observation and whether all runs agreed; nontrivial = some option set", len(corpusDocs), len(corpusCfgs), repeats), true)
+	w.Close(fmt.Sprintf("corpus %d documents x %d configurations; small scope: every document over the keys x every allow and deny list of <=2 paths (see small_scope) and 8 shaping configurations; random documents (depth<=6, width<=5, keys empty/dotted/non-ASCII, arrays, null) x random target/allow|deny/mapping/group with paths walking the document; decoder+formatter through the http proxy and the gin pipeline (arrays/objects/null/scalars x is_collection); backends whose extra_config has shapes that do / do not select the flatmap formatter (NewEntityFormatter's choice is modelled; only the entity formatter is judged); the consumer scribbles into every returned Data map after copying it; concurrent first use of fresh formatters with 50-200 listed paths (child process); endpoints with 2-3 backends in a child process, arrival order at the merge imposed, target misses arriving first (own options each; disjoint and overlapping top-level keys; failing decoders) through the default factory's parallel merge and the gin JSON render, client body compared with the composed model (overlap winner open) and with the boolean no-leak form; instance reuse: one formatter / http proxy per configuration driven through sequences of 3-9 related documents (corpus + random) and hit by 8 goroutines x 150 calls (each distinct (document, observation) pair is a case); every other Format configuration run %d times on fresh copies (map order), a case carries the first observation and whether all runs agreed; nontrivial = some option set", len(corpusDocs), len(corpusCfgs), repeats), true)
 }
 
 // ---- decoder + formatter: http proxy level and whole pipeline behind gin ----
